@@ -927,6 +927,26 @@ func rulePull(c *Ctx) {
 	}
 	c.census("C19-PULL", "starts of a configuration pull in the change handler", n, 1)
 	bad := escapesFlags(h.Blocks[0], 0, starts)
+	// the same for the `initialized` notification: the first pull of the session is started on every path through
+	// the handler - with or without a workspace root (C19-m31: an early return "nothing to initialise without a
+	// workspace" in front of the go statement: a single-file session never asks for its configuration)
+	if fd := c.P.handlerByParam("protocol.InitializedParams"); fd != nil {
+		if hi := c.P.ssaOf(fd); hi != nil && len(hi.Blocks) > 0 {
+			ni := 0
+			for _, b := range hi.Blocks {
+				for _, ins := range b.Instrs {
+					if starts(ins) {
+						ni++
+					}
+				}
+			}
+			if ni > 0 {
+				c.check(!escapesFlags(hi.Blocks[0], 0, starts), "C19-PULL", funcName(hi), "the initialized notification pulls the configuration on every path", hi.Pos(),
+					"every path through the handler starts a pull of the client's configuration",
+					"the initialized handler can return without starting the first pull of the configuration (an early return for a session without a workspace root): such a session keeps the defaults, whatever the client would answer to workspace/configuration, until some later change notification arrives")
+			}
+		}
+	}
 	c.check(!bad, "C19-PULL", funcName(h), "every configuration change pulls the configuration", h.Pos(),
 		"every path through the handler starts a pull of the client's configuration",
 		"the configuration-change handler can return without pulling the configuration (a throttle, a cache, an early return): a change that arrives on such a path never takes effect")
